@@ -371,9 +371,170 @@ func propC25(c *Check) {
 	ruleR25_3(c)
 }
 
+func ruleR24_3(c *Check) {
+	w := c.W
+	r := c.Rule("R24.3", "E4", 10, "field coverage of the round trip: the KV a backup emits for a version carries Key, Value, UserMeta, Version, ExpiresAt and Meta of the item; KVLoader.Set builds the entry from exactly those: Key = KeyWithTs(kv.Key, kv.Version), Value, UserMeta = kv.UserMeta[0], ExpiresAt, meta = kv.Meta[0] (so delete and discard-earlier markers survive); Load hands every KV of every list to the loader and finishes it before returning; the length prefix written by writeTo is the one Load reads (uint64, little endian, of the marshalled list)",
+		"a field dropped on either side is lost for every restored key: an expiry that no longer expires, a delete marker restored as a live empty value")
+	bk := w.F("badger.Stream.Backup")
+	// the KV literal for a version: the one that mentions item.Version() for Version and a value
+	wantKV := map[string]func(e ast.Expr) bool{
+		"Key":       func(e ast.Expr) bool { return w.mentions(e, w.Func("badger.Item.Key")) || w.mentions(e, w.Func("badger.Item.KeyCopy")) },
+		"Version":   func(e ast.Expr) bool { return w.isCallTo(e, w.Func("badger.Item.Version")) },
+		"UserMeta":  func(e ast.Expr) bool { return w.mentions(e, w.Func("badger.Item.UserMeta")) },
+		"ExpiresAt": func(e ast.Expr) bool { return w.isCallTo(e, w.Func("badger.Item.ExpiresAt")) },
+	}
+	found := false
+	bk.walkDeep(func(own *Fn, n ast.Node) bool {
+		cl, ok := n.(*ast.CompositeLit)
+		if !ok || !isNamedType(w.TypeOf(cl), "KV") {
+			return true
+		}
+		got := map[string]ast.Expr{}
+		for _, el := range cl.Elts {
+			if kv, ok := el.(*ast.KeyValueExpr); ok {
+				if id, ok := kv.Key.(*ast.Ident); ok {
+					got[id.Name] = kv.Value
+				}
+			}
+		}
+		if _, hasValue := got["Value"]; !hasValue {
+			return true // the delete marker appended for DiscardEarlierVersions
+		}
+		found = true
+		for name, p := range wantKV {
+			e, ok := got[name]
+			r.Check(ok && p(e), own, "backup KV."+name+" from the item", cl, "the KV emitted for a version does not carry "+name+" of the item")
+		}
+		// Meta: from item.meta (txn bits cleared, R24.2)
+		e, ok := got["Meta"]
+		okMeta := false
+		if ok {
+			ast.Inspect(e, func(m ast.Node) bool {
+				if x, isE := m.(ast.Expr); isE && w.mentions(w.from(x), w.Field("badger.Item.meta")) {
+					okMeta = true
+				}
+				return !okMeta
+			})
+		}
+		r.Check(okMeta, own, "backup KV.Meta from the item's meta", cl, "the KV emitted for a version does not carry the item's meta byte")
+		return true
+	})
+	r.Exists(found, bk, "KV literal of a version", nil, "no pb.KV literal with a Value in Stream.Backup")
+	// loader side
+	st := w.F("badger.KVLoader.Set")
+	kvT := func(name string) *types.Var { return w.Field("pb.KV." + name) }
+	ent := map[string]ast.Expr{}
+	st.walk(func(n ast.Node) bool {
+		cl, ok := n.(*ast.CompositeLit)
+		if !ok || !isNamedType(w.TypeOf(cl), "Entry") {
+			return true
+		}
+		for _, el := range cl.Elts {
+			if kv, ok := el.(*ast.KeyValueExpr); ok {
+				if id, ok := kv.Key.(*ast.Ident); ok {
+					ent[id.Name] = kv.Value
+				}
+			}
+		}
+		return true
+	})
+	firstByteOf := func(e ast.Expr, fld *types.Var) bool {
+		// a local defined (under len(kv.F) > 0) as kv.F[0]
+		ok := false
+		id, isId := unparen(e).(*ast.Ident)
+		if !isId {
+			return false
+		}
+		v, isVar := w.Use(id).(*types.Var)
+		if !isVar {
+			return false
+		}
+		for _, d := range w.DefsOf(st, v) {
+			if ix, isIx := unparen(d).(*ast.IndexExpr); isIx && w.fieldOf(ix.X) == fld {
+				if c0, isC := w.constInt(ix.Index); isC && c0 == 0 {
+					ok = true
+				}
+			}
+		}
+		return ok
+	}
+	okKey := false
+	if e, ok := ent["Key"]; ok {
+		if call, isCall := unparen(e).(*ast.CallExpr); isCall && w.Callee(call) == types.Object(w.Func("y.KeyWithTs")) && len(call.Args) == 2 {
+			okKey = w.fieldOf(call.Args[0]) == kvT("Key") && w.fieldOf(call.Args[1]) == kvT("Version")
+		}
+	}
+	r.Check(okKey, st, "entry key is KeyWithTs(kv.Key, kv.Version)", nil, "KVLoader.Set does not restore the key at the backed-up version")
+	r.Check(ent["Value"] != nil && w.fieldOf(ent["Value"]) == kvT("Value"), st, "entry value from kv.Value", nil, "KVLoader.Set does not restore the value")
+	r.Check(ent["ExpiresAt"] != nil && w.fieldOf(ent["ExpiresAt"]) == kvT("ExpiresAt"), st, "entry expiry from kv.ExpiresAt", nil, "KVLoader.Set does not restore the expiry")
+	r.Check(ent["UserMeta"] != nil && firstByteOf(ent["UserMeta"], kvT("UserMeta")), st, "entry user meta from kv.UserMeta[0]", nil, "KVLoader.Set does not restore the user meta byte")
+	r.Check(ent["meta"] != nil && firstByteOf(ent["meta"], kvT("Meta")), st, "entry meta from kv.Meta[0]", nil, "KVLoader.Set does not restore the meta byte (delete / discard-earlier markers)")
+	// Load: every KV of every list goes to the loader; Finish before the success return
+	ld := w.F("badger.DB.Load")
+	set, fin := selCallName(w, "badger.KVLoader.Set"), selCallName(w, "badger.KVLoader.Finish")
+	okRange := false
+	for _, s := range ld.Sites(set) {
+		for p := w.parentOf(s); p != nil; p = w.parentOf(p) {
+			if rs, ok := p.(*ast.RangeStmt); ok && w.fieldOf(rs.X) == w.Field("pb.KVList.Kv") {
+				okRange = true
+				r.Check(len(w.Guards(ld, s)) == 0 || onlyLoopGuards(w, ld, s), ld, "every KV of a list is loaded", s, "KVLoader.Set is called only for some KVs")
+			}
+		}
+		r.Check(w.errIsFatal(ld, s.(*ast.CallExpr)), ld, "a KV that cannot be loaded fails Load", s, "the error of KVLoader.Set is ignored")
+	}
+	r.Check(okRange, ld, "Load ranges over list.Kv", nil, "KVLoader.Set is not called inside a range over the list's KVs")
+	r.ExitsNeed(ld, "KVLoader.Finish", fin, 0, exitSuccess)
+	for _, s := range ld.Sites(fin) {
+		r.Check(w.errIsFatal(ld, s.(*ast.CallExpr)), ld, "a failed flush of the loader fails Load", s, "the error of KVLoader.Finish is ignored")
+	}
+	// framing: writeTo writes uint64 LE size of the list then the marshalled list; Load reads a uint64 LE and that many bytes
+	wt := w.F("badger.writeTo")
+	le := w.ObjIn("encoding/binary", "LittleEndian")
+	okW, okR := false, false
+	wt.walk(func(n ast.Node) bool {
+		if call, ok := n.(*ast.CallExpr); ok && len(call.Args) == 3 {
+			if fn, _ := w.Callee(call).(*types.Func); fn != nil && fn.Name() == "Write" && fn.Pkg() != nil && fn.Pkg().Path() == "encoding/binary" {
+				okW = w.mentions(call.Args[1], le) && w.TypeOf(call.Args[2]) != nil && w.TypeOf(call.Args[2]).String() == "uint64"
+			}
+		}
+		return true
+	})
+	ld.walk(func(n ast.Node) bool {
+		if call, ok := n.(*ast.CallExpr); ok && len(call.Args) == 3 {
+			if fn, _ := w.Callee(call).(*types.Func); fn != nil && fn.Name() == "Read" && fn.Pkg() != nil && fn.Pkg().Path() == "encoding/binary" {
+				t := w.TypeOf(call.Args[2])
+				okR = w.mentions(call.Args[1], le) && t != nil && t.String() == "*uint64"
+			}
+		}
+		return true
+	})
+	r.Check(okW && okR, wt, "length prefix: uint64, little endian, on both sides", nil, "writeTo and Load disagree on the list length prefix")
+}
+
+// onlyLoopGuards: every guard of n in f is a loop condition or an error-return guard preceding it.
+func onlyLoopGuards(w *World, f *Fn, n ast.Node) bool {
+	for _, g := range w.Guards(f, n) {
+		if _, isFor := g.At.(*ast.ForStmt); isFor {
+			continue
+		}
+		if g.Implicit && w.errNonNil(g.Cond, !g.Val) {
+			continue
+		}
+		if g.Implicit {
+			// early exits on read errors (err == io.EOF → break, err != nil → return)
+			if w.mentions(g.Cond, w.Obj("io.EOF")) {
+				continue
+			}
+		}
+		return false
+	}
+	return true
+}
+
 func propC24(c *Check) {
 	ruleR24_1(c)
 	ruleR24_2(c)
+	ruleR24_3(c)
 	ruleR11_4(c)
 	ruleR25_1(c)
 }
